@@ -242,8 +242,9 @@ fn main() {
         }
     }
     // ---- loop super-instructions
-    let lints: Vec<u64> = [0i64, 1, -1, 2, -2, 5, 10, -10, (1 << 47) - 1, (1 << 47) - 2, -(1 << 47), -(1 << 47) + 1, 1 << 46]
-        .iter().map(|&n| int(n)).collect();
+    let lvals: &[i64] = if lite { &[0, 1, -1, 2, 10, (1 << 47) - 1, -(1 << 47), -3] }
+        else { &[0, 1, -1, 2, -2, 5, 10, -10, (1 << 47) - 1, (1 << 47) - 2, -(1 << 47), -(1 << 47) + 1, 1 << 46] };
+    let lints: Vec<u64> = lvals.iter().map(|&n| int(n)).collect();
     let mut lpool = lints.clone();
     lpool.extend([flt(1.5), flt(0.0), Value::bool(true).raw_bits(), Value::null().raw_bits(), ptrs[0]]);
     for (incl, op) in [(false, OpCode::ForLoopI), (true, OpCode::ForLoopIInc)] {
